@@ -556,6 +556,16 @@ func evalModel(cs *modelCase) *verdict {
 		// around it (what the implicit elisions stood for) changed.
 		v.Class = "around-instance-changed"
 		v.Props = []string{"C05", "C04"}
+	case d.Cont > 0:
+		// The block holds a reference instance, but something else in its
+		// statement list was rewritten and/or the instance was not: the
+		// change was applied to the wrong run of statements.
+		v.Class = "container-misapplied"
+		v.Props = []string{"C01"}
+		site := res.Sites[d.Cont-1]
+		if start, ok := p.RelaxedFirstStart(site.Node); ok && start != site.Start {
+			v.Props = append(v.Props, "C02")
+		}
 	default:
 		// Is the difference part of a region that gopatch rewrote (it carries
 		// more of the plus side's marker than expected there)?
